@@ -758,6 +758,17 @@ func c03exec(c c03case, mask int) string {
 			}
 		}
 	}
+	// the VM must stay usable: whatever the input did (or failed to do half-way), a later, unrelated evaluation on the
+	// same VM returns as well (only that it returns is checked: the input may legitimately have redefined anything)
+	for _, probe := range []string{"q9z := 1\nq9z + 1", "func q9f(a int) int {\n\tfor i := 0; i < 2; i++ {\n\t\ta += i\n\t}\n\treturn a\n}\nq9f(1)"} {
+		r := m.Eval(fstest.MapFS{}, probe)
+		if r.HostPanic != nil && !r.Budget {
+			return fmt.Sprintf("a Go panic escaped a later Eval on the same VM (%q): %v", probe, r.HostPanic)
+		}
+		if r.Err != nil && !c03prefixRe.MatchString(r.Err.Error()) {
+			return "a later Eval on the same VM failed without a stage prefix: " + firstLine(r.Err.Error())
+		}
+	}
 	return ""
 }
 
@@ -864,7 +875,7 @@ func c03runChild(tier, space string, from, to int, timeout time.Duration) c03chi
 
 func c03run(r *report.Run) {
 	thorough := r.Tier == "thorough"
-	r.Rule("bytes: all strings of length <=2 over 256 bytes and length 3 over 48 byte classes; tokens: all strings of length <=2 over a 121-token alphabet and length 3 over a 30-token sharp sub-alphabet (thorough: all); seeds (every string of the repository's test tables + 43 statement-form programs incl. the four known crashers) with 0 and 1 token deviation (delete/replace/insert at every position with every token of the sharp (thorough: full) alphabet) and 2 deviations (all pairs of deletions; for short seeds all pairs of edits over a small alphabet); trees: all file trees of <=2 (3) files over 4 directories x 15 bodies x 7 fault positions x 8 option subsets x 3 entry points; each case through Eval/Load and then Call/Func with 0..2 arguments and 0..2 requested results on what it defined; non-trivial = every case (each is a distinct input/configuration)")
+	r.Rule("bytes: all strings of length <=2 over 256 bytes and length 3 over 48 byte classes; tokens: all strings of length <=2 over a 121-token alphabet and length 3 over a 30-token sharp sub-alphabet (thorough: all); seeds (every string of the repository's test tables + 43 statement-form programs incl. the four known crashers) with 0 and 1 token deviation (delete/replace/insert at every position with every token of the sharp (thorough: full) alphabet) and 2 deviations (all pairs of deletions; for short seeds all pairs of edits over a small alphabet); trees: all file trees of <=2 (3) files over 4 directories x 15 bodies x 7 fault positions x 8 option subsets x 3 entry points; each case through Eval/Load, then Call/Func with 0..2 arguments and 0..2 requested results on what it defined, then two unrelated Evals on the same VM (the VM must stay usable); non-trivial = every case (each is a distinct input/configuration)")
 	r.Assume("a run that exhausts the instruction/depth budget counts as terminated by the harness (the property excepts non-terminating scripts)", "front-end stages have no budget: a child that does not finish its range within the watchdog is bisected down to the single input, which is then reported", "os.WriteFile/os.ReadFile/time.Sleep are replaced by harmless natives for the enumeration")
 	spaces := c03spaces(thorough)
 	type job struct {
